@@ -74,6 +74,12 @@ func codecCase(c *ev.Case, ctx *lib.Ctx, m *gen.Msg, mode int, c01, c02 bool, ri
 			c.Fail(sig("encode-vs-ref"), refwire, map[string]any{"lib": ev.Hex(wire)}, "library wire image differs from the reference encoder at byte %d (lib %d bytes, ref %d bytes)", firstDiff(wire, refwire), len(wire), len(refwire))
 			return
 		}
+		// the bytes actually emitted to a writer (serialised into a recycled buffer)
+		var wbuf bytes.Buffer
+		if _, werr := dm.WriteTo(&wbuf); werr != nil || !bytes.Equal(wbuf.Bytes(), refwire) {
+			c.Fail(sig("writeto-vs-ref"), refwire, map[string]any{"lib": ev.Hex(wbuf.Bytes())}, "the bytes WriteTo emits differ from the reference encoder at byte %d (err=%v)", firstDiff(wbuf.Bytes(), refwire), werr)
+			return
+		}
 	}
 	if c01 {
 		var buf bytes.Buffer
